@@ -163,7 +163,7 @@ impl Language for Scala {
         writeln!(
             w,
             "type {}{} = {}\n",
-            ty.id.original,
+            ty.id.renamed,
             (!ty.generic_types.is_empty())
                 .then(|| format!("[{}]", ty.generic_types.join(", ")))
                 .unwrap_or_default(),
@@ -350,7 +350,7 @@ impl Scala {
                                 w,
                                 "{}: {}{}Inner{}",
                                 content_key,
-                                e.shared().id.original,
+                                e.shared().id.renamed,
                                 shared.id.original,
                                 generics,
                             )?;
@@ -361,7 +361,7 @@ impl Scala {
                     writeln!(
                         w,
                         " extends {}{} {{",
-                        e.shared().id.original,
+                        e.shared().id.renamed,
                         (!e.shared().generic_types.is_empty())
                             .then(|| format!("[{}]", e.shared().generic_types.join(", ")))
                             .unwrap_or_default()
